@@ -28,8 +28,12 @@ Proof.
     apply ends_with_occurs in E. congruence.
 Qed.
 
-Lemma atom_ok_inv a : atom_ok a = true -> truthy_atom a = true /\ benign_text (render_atom a) = true.
-Proof. unfold atom_ok. intros H. now apply andb_true_iff in H. Qed.
+Lemma atom_ok_inv ws a : atom_ok ws a = true ->
+  benign_text (render_atom a) = true /\ (has_ph ws = true \/ truthy_atom a = true).
+Proof.
+  unfold atom_ok, atom_benign. intros H. apply andb_true_iff in H as [H1 H2]. split; [exact H1|].
+  apply orb_true_iff in H2. tauto.
+Qed.
 
 Definition field_hyps (f : sfield) (ws : list word) (dots : bool) : Prop :=
   sf_argstr f = SA ws dots /\ valid_ident (sf_name f) = true /\ forallb word_ok ws = true
@@ -49,17 +53,17 @@ Proof. unfold to_field. cbn. now rewrite Ha. Qed.
 
 (* a single atom through _format_arg *)
 Lemma format_atom valsM valsS a : lookup valsM (sf_name f) = VAtom a ->
-  atom_ok a = true -> inert ws valsS (render_atom a) = true ->
+  atom_ok ws a = true -> inert ws valsS (render_atom a) = true ->
   format_arg (to_field f) argstr valsM = Good (occurrence ws valsS (render_atom a)).
 Proof.
-  intros Hl Hok Hin. destruct (atom_ok_inv a Hok) as [Ht Hb].
+  intros Hl Hok Hin. destruct (atom_ok_inv ws a Hok) as [Hb Ht].
   unfold format_arg. change (f_name (to_field f)) with (sf_name f). rewrite Hl.
-  destruct (argstr_strip _ _ _ Hdt) as [E _]. fold argstr in E. rewrite E, Ht.
+  destruct (argstr_strip _ _ _ Hdt) as [E _]. fold argstr in E. rewrite E.
   now apply (scalar_ok (sf_name f) ws Hws).
 Qed.
 
 Lemma format_atoms valsM valsS l :
-  forallb (fun a => atom_ok a && inert ws valsS (render_atom a)) l = true ->
+  forallb (fun a => atom_ok ws a && inert ws valsS (render_atom a)) l = true ->
   map_result (fun a => format_arg (to_field f) argstr ((sf_name f, VAtom a) :: valsM)) l
   = Good (map (fun a => occurrence ws valsS (render_atom a)) l).
 Proof.
@@ -131,7 +135,7 @@ Proof. unfold env_of. cbn [lookup]. now rewrite la_eqb_refl. Qed.
 (* '...' with a blank separator *)
 Lemma format_dots valsM valsS l : dots = true -> sf_sep f = [" "] ->
   lookup valsM (sf_name f) = VList l ->
-  forallb atom_ok l = true -> forallb (fun a => inert ws valsS (render_atom a)) l = true ->
+  forallb atom_benign l = true -> forallb (fun a => inert ws valsS (render_atom a)) l = true ->
   format_arg (to_field f) argstr valsM = Good (List.concat (map (fun a => occurrence ws valsS (render_atom a)) l)).
 Proof.
   intros Hd Hsep Hl Hok Hin. unfold format_arg. change (f_name (to_field f)) with (sf_name f). rewrite Hl.
@@ -143,9 +147,9 @@ Proof.
   - rewrite (map_result_good _ (fun a => sp ++ occ_text ws valsS (render_atom a))).
     + cbn [bind]. rewrite (split_parts (fun a => occ_text ws valsS (render_atom a)) (fun a => map (inst_word valsS (render_atom a)) ws)).
       * f_equal. f_equal. apply map_ext_in. intros a Ha0. symmetry. apply occurrence_templ; [exact Hph|].
-        apply (atom_ok_inv a (Hok a Ha0)).
-      * intros a Ha0. apply templ_facts. apply (atom_ok_inv a (Hok a Ha0)).
-    + intros a Ha0. destruct (atom_ok_inv a (Hok a Ha0)) as [_ Hb]. specialize (Hin a Ha0).
+        apply (Hok a Ha0).
+      * intros a Ha0. apply templ_facts. apply (Hok a Ha0).
+    + intros a Ha0. pose proof (Hok a Ha0) as Hb. unfold atom_benign in Hb. specialize (Hin a Ha0).
       unfold inert in Hin. rewrite Hph in Hin. cbn in Hin.
       unfold argstr_formatting. rewrite render_flat.
       rewrite (fmt_pieces (sf_name f) Hn _ valsS (render_atom a) (env_self valsM a)) by (apply flat_nb, words_ok_nb, Hws).
@@ -156,18 +160,18 @@ Proof.
     rewrite (split_parts (fun a => render_words (sf_name f) ws ++ sp ++ render_atom a)
                          (fun a => map (inst_word valsS (render_atom a)) ws ++ [render_atom a])).
     + f_equal. f_equal. apply map_ext_in. intros a Ha0. unfold occurrence. now rewrite Hph.
-    + intros a Ha0. apply plain_facts; [exact Hph|]. apply (atom_ok_inv a (Hok a Ha0)).
+    + intros a Ha0. apply plain_facts; [exact Hph|]. apply (Hok a Ha0).
 Qed.
 
-Lemma atoms_benign l : forallb atom_ok l = true -> forallb benign_text (map render_atom l) = true.
+Lemma atoms_benign l : forallb atom_benign l = true -> forallb benign_text (map render_atom l) = true.
 Proof.
   intros H. rewrite forallb_forall in *. intros t Ht. apply in_map_iff in Ht as (a & <- & Ha0).
-  apply (atom_ok_inv a (H a Ha0)).
+  apply (H a Ha0).
 Qed.
 
 (* joined by a blank: separate arguments after the flag words *)
 Lemma format_join_blank valsM valsS l : dots = false -> sf_sep f = [" "] -> has_ph ws = false ->
-  lookup valsM (sf_name f) = VList l -> forallb atom_ok l = true ->
+  lookup valsM (sf_name f) = VList l -> forallb atom_benign l = true ->
   format_arg (to_field f) argstr valsM
   = Good (match l with [] => [] | _ => map (inst_word valsS []) ws ++ map render_atom l end).
 Proof.
@@ -191,7 +195,7 @@ Proof.
   - now rewrite forallb_app, Hbw, Hb.
 Qed.
 
-Lemma join_atoms_benign sep l : forallb benign_char sep = true -> l <> [] -> forallb atom_ok l = true ->
+Lemma join_atoms_benign sep l : forallb benign_char sep = true -> l <> [] -> forallb atom_benign l = true ->
   benign_text (join_sep sep (map render_atom l)) = true.
 Proof.
   intros Hs Hne Hok. pose proof (atoms_benign _ Hok) as Hb. unfold benign_text. apply andb_true_iff. split.
@@ -203,7 +207,7 @@ Qed.
 
 (* joined by a benign separator: one word *)
 Lemma format_join_sep valsM valsS l : dots = false -> forallb benign_char (sf_sep f) = true -> l <> [] ->
-  lookup valsM (sf_name f) = VList l -> forallb atom_ok l = true ->
+  lookup valsM (sf_name f) = VList l -> forallb atom_benign l = true ->
   inert ws valsS (join_sep (sf_sep f) (map render_atom l)) = true ->
   format_arg (to_field f) argstr valsM = Good (occurrence ws valsS (join_sep (sf_sep f) (map render_atom l))).
 Proof.
@@ -212,7 +216,7 @@ Proof.
   change (f_sep (to_field f)) with (sf_sep f).
   pose proof (join_atoms_benign _ l Hsep Hne Hok) as Hb.
   destruct (join_sep (sf_sep f) (map render_atom l)) as [|c s] eqn:Es; [discriminate Hb|]. cbn [negb]. rewrite <- Es in *.
-  now apply (scalar_ok (sf_name f) ws Hws).
+  apply (scalar_ok (sf_name f) ws Hws); auto.
 Qed.
 
 Lemma format_empty_list valsM : dots = false -> has_ph ws = false -> lookup valsM (sf_name f) = VList [] ->
@@ -250,7 +254,7 @@ Proof.
     destruct (has_brace_words (sf_name f) ws Hws) as [A _]. rewrite A, Hph, Hl.
     destruct b; reflexivity.
   - (* scalar *)
-    assert (Hat : atom_ok a = true /\ inert ws valsS (render_atom a) = true)
+    assert (Hat : atom_ok ws a = true /\ inert ws valsS (render_atom a) = true)
       by (destruct (sf_ty f); try discriminate Hv; now apply andb_true_iff in Hv).
     destruct Hat as [H1 H2].
     assert (E : format_arg (to_field f) (render_words (sf_name f) ws ++ (if dots then ellipsis else [])) valsM
